@@ -221,7 +221,8 @@ func (t *callTracer) CaptureAspectExit(joinpoint types.JoinPointRunType, result 
 	// reset join point if we exit
 	last := len(t.callstack) - 1
 	t.callstack[last].joinPoint = types.JoinPointRunType_Unknown
-	for i := range t.callstack[last].JoinPoints {
+	// the Aspect execution that exits is the most recently entered one of this join point
+	for i := len(t.callstack[last].JoinPoints) - 1; i >= 0; i-- {
 		if t.callstack[last].JoinPoints[i].Type == joinpoint {
 			t.callstack[last].JoinPoints[i].GasUsed = t.callstack[last].JoinPoints[i].Gas - result.Gas
 			t.callstack[last].JoinPoints[i].processOutput(result.Ret, result.Err)
